@@ -656,7 +656,20 @@ func observe(s *spec, b built, file string) (j *judge, openErr error) {
 		}
 		defer r.Close()
 		if got := r.SheetNames(); strings.Join(got, "|") != strings.Join(b.names, "|") {
-			j.flag("wrong-order", "xlsx.SheetNames", fmt.Sprintf("%q, want %q", got, b.names))
+			have := map[string]bool{}
+			for _, g := range got {
+				have[g] = true
+			}
+			class := "wrong-order"
+			if len(got) > len(b.names) {
+				class = "decoy-part-included"
+			}
+			for _, w := range b.names {
+				if !have[w] {
+					class = "part-lost"
+				}
+			}
+			j.flag(class, "xlsx.SheetNames", fmt.Sprintf("%q, want %q", got, b.names))
 		}
 		var sheets []string
 		for i := 0; i < r.SheetCount(); i++ {
